@@ -94,6 +94,12 @@ SPEC = {
             "extrap_expratedecay": {"params": {"sample": R, "sample_at": R, "prev_data": R, "next_data": R, "step_time": R, "rate_constant": R}},
         },
     },
+    "Smoothing": {
+        "file": "inferno/core/math.py",
+        "functions": {
+            "exponential_smoothing": {"params": {"obs": R, "level": "opt real", "alpha": R}},
+        },
+    },
     "Bounding": {
         "file": "inferno/functional/bounding.py",
         "functions": {
